@@ -86,7 +86,10 @@ def cases(draw):
             kw["parallel"] = True
         if draw(st.booleans()):
             kw["random_values"] = True
-        if draw(st.integers(0, 99)) < 30:
+        # debug=True together with the builtin optimiser is not generated: z3 4.12.6 aborts the process
+        # ("ASSERTION VIOLATION ast.cpp:388" / SIGSEGV) on tracked assertions inside z3.Optimize for about
+        # 1 problem in 200 - a crash of z3 itself, not a verdict that could be compared (DESIGN.md section 5)
+        if kw.get("optimizer") != "optimize" and draw(st.integers(0, 99)) < 30:
             kw["debug"] = True
         if LOGICS[lv] and kw.get("optimizer") != "optimize" and draw(st.integers(0, 99)) < 50:
             kw["logics"] = draw(st.sampled_from(LOGICS[lv]))
@@ -165,7 +168,19 @@ def prop(ctx, case):
             ctx.violation({"check": "C15.config", "rule": "verdicts_differ", "spec": spec, "seed": seed, "cfg": kw, "probe": {"kind": "config"},
                            "observed": {"default": base[1], "configured": ok}, "signature": {"rule": "verdicts_differ", "classes": engine.classes_of(spec), "cfg_keys": sorted(k for k in kw if k != "_rseed")}})
             return
-        if ok and val is not None and base[2] is not None and val != base[2] and not pareto_like:
+        # optimality is only comparable inside a fragment where z3 decides it: on non-linear or quantified
+        # problems z3.Optimize answers 'sat' with a model that need not be optimal (measured: 3 / 4 / 5 / 11 for
+        # one MinimizeMakespan problem with a concurrent buffer across runs)
+        worse_only = False
+        if ok and val is not None and base[2] is not None and val != base[2] and kw.get("optimizer") == "optimize":
+            # z3 4.12.6's Optimize may return a non-optimal model (DESIGN.md section 5): only a value BETTER than the
+            # incremental optimum of the default configuration is decidable
+            kd = ref.objective_kind(spec["objectives"][0])
+            worse_only = (kd == "minimize" and val > base[2]) or (kd == "maximize" and val < base[2])
+            if worse_only:
+                ctx.event("builtin_optimiser_returned_non_optimal_value")
+                ctx.inconclusive += 1
+        if ok and val is not None and base[2] is not None and val != base[2] and not pareto_like and not worse_only and classify(spec) in ("idl", "lia"):
             ctx.violation({"check": "C15.config", "rule": "optimum_differs", "spec": spec, "seed": seed, "cfg": kw, "probe": {"kind": "config"},
                            "observed": {"default": base[2], "configured": val}, "signature": {"rule": "optimum_differs", "classes": engine.classes_of(spec), "cfg_keys": sorted(k for k in kw if k != "_rseed")}})
             return
